@@ -376,10 +376,12 @@ namespace occa {
         return false;
       }
 
-      typedef_t &typedefType = *((typedef_t*) type);
+      // 'typedef float foo;' has the typedef qualifier but a primitive type
+      const typedef_t *typedefType = dynamic_cast<const typedef_t*>(type);
       return (
-        typedefType.declaredBaseType
-        && typedefType.baseType.has(enum_)
+        typedefType
+        && typedefType->declaredBaseType
+        && typedefType->baseType.has(enum_)
       );
     }
 
@@ -391,10 +393,12 @@ namespace occa {
         return false;
       }
 
-      typedef_t &typedefType = *((typedef_t*) type);
+      // 'typedef float foo;' has the typedef qualifier but a primitive type
+      const typedef_t *typedefType = dynamic_cast<const typedef_t*>(type);
       return (
-        typedefType.declaredBaseType
-        && typedefType.baseType.has(struct_)
+        typedefType
+        && typedefType->declaredBaseType
+        && typedefType->baseType.has(struct_)
       );
     }
 
